@@ -8,3 +8,8 @@ for pid in "$@"; do
 done
 git -C /repo checkout -- .
 git -C /repo status --short | head -3
+# bring the regenerated tables back to the unchanged tree
+python3 -c "
+import sys; sys.path.insert(0,'/verif')
+from vcheck import translator, translator_db
+print(translator.regenerate()); print(translator_db.regenerate())" 2>&1 | grep -v WARNING
